@@ -5,8 +5,9 @@ READY = True
 
 META = {
     "technique": "Lean 4 proof (generic interpreter loop around the fuel tracker: non-interference, call trees with a tracker policy per "
-                 "nested activation, structured programs whose trace and cost are functions of the data, every u64 budget) + total "
-                 "cost table, tracker/State creation sites, nested-evaluation functions, tracker-use list and track site regenerated "
+                 "nested activation, structured programs with loops and conditionals whose trace and cost are functions of the data, nested-evaluation "
+                 "edges with the callee's trace as a parameter, every u64 budget) + total "
+                 "cost table, tracker/State creation sites, nested-evaluation functions, tracker-use list, track site and output/fetch/evaluation sites regenerated "
                  "from the sources + differential runs on real instruction traces",
     "category": "proof",
     "text": "Kernel-checked theorems. (1) Trace level: model of FuelTracker::{new,track,remaining,consumed}; for every executed "
@@ -67,7 +68,20 @@ META = {
             "prog_threshold_exact (cost + 1 is the threshold for every context and every u64 budget), uniform_loop_cost_linear "
             "(head + n * (iteration) + exit with n from the context), error_threshold_exact (a render that ends with an error of "
             "its own ends with that error, after the same instructions and the same consumption, at every budget at or above its "
-            "threshold, and out of fuel below). The differential tie runs ~4900 (quick) / ~28000 (thorough) "
+            "threshold, and out of fuel below); the programs also have conditionals whose direction comes from the data "
+            "(branch_cost_selects: if/elif/else, the else part of a for loop - for_else_cost -, the per-item test of a loop filter) and "
+            "further kinds of failing instructions (IntDiv, Rem, a failing filter). (10) Edges with the callee's trace as a parameter: "
+            "edge_consumption_adds_up (for ANY callee traces - empty, one EmitRaw, free instructions only - spliced anywhere into the "
+            "edge's own instructions the edge consumes the cost of its own instructions plus what every callee consumes on its own, "
+            "the threshold is that sum + 1, and outcome and levels at every u64 budget are predicted from the parts), "
+            "edge_repeated_callee (a callee run m times), uncharged_work_breaks_accumulation (an engine that does a callee's work "
+            "outside the metered loop accepts budgets below the threshold of the work really done; the gap is what the callees "
+            "cost), tied by output_sites_are_instruction_arms: the regenerated table C13_OUTPUT_SITES of every place in minijinja/src "
+            "(outside the compiler and vm/fuel.rs) that writes to the render's Output, fetches an instruction, calls eval_state/"
+            "do_eval/eval_impl or matches on an Instruction outside the dispatch loop shows: output is written only in the arms "
+            "EmitRaw and Emit of eval_impl's dispatch (after the charge), there is one fetch (the loop head), and perform_include / "
+            "perform_super / call_block / eval_macro / Executor::eval only go through eval_state -> do_eval -> eval_impl. "
+            "The differential tie runs ~4900 (quick) / ~28000 (thorough) "
             "programs on the real engine in 8 parallel shards (loops, macros, call blocks, imports, includes, inheritance, super, self.block, "
             "render_block/call_macro/Value::call from Rust, every nested-evaluation edge in emit position and 12 expression/captured "
             "positions, each also with nothing following it (an engine that drops the error of a nested evaluation is only visible "
@@ -95,7 +109,22 @@ META = {
             "Structured stream: for programs with loops over the data (flat, two in a row, nested two and three levels with "
             "inner counts depending on the outer item, divisions that fail for some item) the compiled instruction list with its "
             "jump targets is converted to the structured model, which must predict the executed trace, the threshold and every "
-            "outcome from the code and the data alone. "
+            "outcome from the code and the data alone (also if/elif/else on the items, for-else, loop filters, nested combinations, "
+            "Rem and a failing int filter). "
+            "Edge stream (harness c13_edges, built WITH and WITHOUT verif_hooks): 26 include/import/from-import/extends forms x 39 "
+            "callee templates and 24 macro / call block / imported macro / block / self.block() / child block / super() (also captured, "
+            "twice, three levels) / render_block / call_macro / Value::call / filter-, test-, map-, select-callback edges x 28 callee "
+            "bodies, the callee shapes including the degenerate ones (empty, literal text only, several pieces of text, a raw block, only "
+            "whitespace, only a comment, whitespace stripped to nothing, only a set, only a block, an empty block, only macros, only an "
+            "import, an extends-only child, a child of a text-only parent, nested includes of text / of nothing) and seeded random "
+            "compositions; per pair both renders are measured through fuel_levels at 2^40, 2^40+7, 2^64-1, the threshold by bisection "
+            "and a scan of every budget in [0, thr+2]; oracle: consumed(edge around callee) - m * consumed(callee on its own) is the "
+            "same for every callee shape of an edge, from the levels and from the scanned thresholds (no hooks needed); with hooks "
+            "the executed trace must be the edge's own instructions with the callee's trace spliced in m times and the Lean driver "
+            "predicts threshold and levels from the two traces (edgeRun). Capture/scope constructs (filter block, set block, autoescape, "
+            "with, if, loop body) around the same bodies are compared on the trace level only (a compiler may fold them). from-import "
+            "discards the module's output and CallBlock under a discarding output does not run the block, so callees with blocks are "
+            "not used there. "
             "Observer programs put debug(), debug(x), Debug of State/Environment through Rust callables, self, loop, "
             "namespace(), macro and module objects into the output, the Debug form of the Captured is part of every result and all "
             "text forms (Display, alternate Display, Debug, source chain) of non-fuel errors are compared with the unlimited run. For "
@@ -117,8 +146,12 @@ META = {
                   "dispatch does not read or write the tracker and nested activations get the same State — is tied by "
                   "uses_as_modelled/track_before_dispatch/tracker_sites_as_modelled/nested_evaluations_share_state and additionally "
                   "validated on every scanned run (limited run = prefix of "
-                  "the unlimited trace). The structured-program model covers for loops without else/filter/break/recursion and "
-                  "one kind of failing instruction; other control flow is covered by the machine theorems only. "
+                  "the unlimited trace). The structured-program model covers for loops (also with else part and filter), conditionals and "
+                  "failing IntDiv / Rem / filters; break, continue and loop recursion are covered by the machine theorems only. "
+                  "That the executed trace of an edge is a splice of the callee's trace into the edge's own instructions is validated "
+                  "per edge x callee shape (hook trace) and tied by output_sites_are_instruction_arms (regex table), not proved from a "
+                  "transcription of perform_include etc. The edge oracle reads 'accumulates across nested evaluations' as: the cost of "
+                  "an edge's own instructions does not depend on what the callee is. "
                   "User callbacks can read State::fuel_levels (public API) and can swallow errors; the first "
                   "is outside the model (the harness's probe() does it without steering), for the second only stickiness is claimed. "
                   "A Rust callback that renders another template (state.get_template(..)?.render(..)) starts a render of its own "
@@ -169,9 +202,9 @@ def driver_input(progs):
         lines.append(f"{i}\t{budgets}\t{res['pb']}\t{ks}\t{res['trace']}")
         if p.get("skel") and res.get("static_full"):
             try:
-                toks = skel_tokens(res["static_full"])
-                counts, fails = skel_tables(p["ctx"], p["skel"])
-                lines.append(f"S\t{i}.s\t{budgets}\t{counts}\t{fails}\t{' '.join(toks)}")
+                toks = skel_tokens(res["static_full"], tuple(p["skel"].get("fail_ops", ("IntDiv", "Rem"))))
+                counts, fails, conds = skel_tables(p["ctx"], p["skel"])
+                lines.append(f"S\t{i}.s\t{budgets}\t{counts}\t{fails}\t{conds}\t{' '.join(toks)}")
             except (ValueError, KeyError, TypeError, IndexError):
                 pass  # reported by check_program: no model line
         for j, b in enumerate(res.get("blocks", [])):
@@ -186,12 +219,12 @@ def driver_input(progs):
 
 
 # ---------------------------------------------------------------- structured programs (MJ.Fuel.P)
-def skel_tokens(static_full):
-    """compiled instruction list with jump targets -> prefix tokens of MJ.Fuel.P (loops and fallible
-    instructions numbered in source order); ValueError for control flow outside the fragment"""
+def skel_tokens(static_full, fail_ops=("IntDiv", "Rem")):
+    """compiled instruction list with jump targets -> prefix tokens of MJ.Fuel.P (loops, fallible
+    instructions and conditionals numbered in source order); ValueError for control flow outside the fragment"""
     names = [x["op"] for x in static_full]
     args = [x.get("arg") for x in static_full]
-    ids = {"loop": 0, "fail": 0}
+    ids = {"loop": 0, "fail": 0, "cond": 0}
 
     def parse(i, end):
         toks = []
@@ -201,18 +234,36 @@ def skel_tokens(static_full):
                 if not (i + 1 < end and names[i + 1] == "Iterate"):
                     raise ValueError("PushLoop without Iterate")
                 x = args[i + 1]
-                if not (isinstance(x, int) and x <= end and names[x - 1] == "Jump" and args[x - 1] == i + 1 and names[x] == "PopLoopFrame"):
+                # the Iterate that finds the end jumps to PopLoopFrame, or - a loop with an else part - to PushDidNotIterate
+                if not (isinstance(x, int) and x <= end and names[x - 1] == "Jump" and args[x - 1] == i + 1 and names[x] in ("PopLoopFrame", "PushDidNotIterate")):
                     raise ValueError("loop layout")
                 lid = ids["loop"]
                 ids["loop"] += 1
                 body = parse(i + 2, x - 1)
                 toks += ["L", str(lid), "1", "1", "1", "1", "PushLoop", "Iterate", "Jump", "Iterate"] + body + ["E"]
                 i = x
-            elif op == "IntDiv":
+            elif op == "JumpIfFalse":
+                t = args[i]
+                if not (isinstance(t, int) and i < t <= end):
+                    raise ValueError("conditional jump leaves its region")
+                cid = ids["cond"]
+                ids["cond"] += 1
+                if t - 1 > i and names[t - 1] == "Jump" and isinstance(args[t - 1], int) and t <= args[t - 1] <= end:
+                    # first side ends with the jump over the second side
+                    e = args[t - 1]
+                    first = parse(i + 1, t - 1) + ["I", "Jump"]
+                    second = parse(t, e)
+                else:
+                    e = t
+                    first = parse(i + 1, t)
+                    second = []
+                toks += ["I", "JumpIfFalse", "B", str(cid)] + first + ["E"] + second + ["E"]
+                i = e
+            elif op in fail_ops:
                 toks += ["F", op, str(ids["fail"])]
                 ids["fail"] += 1
                 i += 1
-            elif op in CONTROL or op in ("Iterate", "PopLoopFrame") and False:
+            elif op in CONTROL:
                 raise ValueError("control flow outside the structured fragment: " + op)
             else:
                 toks += ["I", op]
@@ -221,23 +272,38 @@ def skel_tokens(static_full):
     return parse(0, len(names))
 
 
+def _truthy(v):
+    return bool(v)
+
+
 def skel_tables(ctx, skel):
-    """trip count of every loop and failing of every fallible instruction per iteration path"""
+    """trip count of every loop, failing of every fallible instruction and direction of every conditional per iteration path"""
     def nodes(v, depth, path=()):
         if depth == 0:
             yield path, v
         elif isinstance(v, list):
             for i, x in enumerate(v):
                 yield from nodes(x, depth - 1, path + (i,))
-    counts, fails = [], []
-    for lid, (root, depth) in enumerate(skel["loops"]):
+    counts, fails, conds = [], [], []
+    for lid, spec in enumerate(skel["loops"]):
+        root, depth = spec[0], spec[1]
         for path, node in nodes(ctx[root], depth):
-            counts.append(f"{lid}:{'.'.join(map(str, path))}:{len(node)}")
-    for fid, (root, depth) in enumerate(skel["fails"]):
+            n = sum(1 for x in node if _truthy(x)) if len(spec) > 2 and spec[2] == "truthy" else len(node)
+            counts.append(f"{lid}:{'.'.join(map(str, path))}:{n}")
+    for fid, spec in enumerate(skel["fails"]):
+        root, depth = spec[0], spec[1]
         for path, node in nodes(ctx[root], depth):
-            if node == 0:
+            bad = (isinstance(node, str) and not node.lstrip("-").isdigit()) if len(spec) > 2 and spec[2] == "nonint" else node == 0
+            if bad:
                 fails.append(f"{fid}:{'.'.join(map(str, path))}")
-    return ";".join(counts), ";".join(fails)
+    for cid, spec in enumerate(skel.get("conds", [])):
+        kind, root, depth = spec[0], spec[-2], spec[-1]
+        for path, node in nodes(ctx[root], depth):
+            if ((kind == "truthy" and _truthy(node)) or (kind == "empty" and len(node) == 0)
+                    or (kind == "none-truthy" and not any(_truthy(x) for x in node))
+                    or (kind == "truthy-of" and _truthy(ctx[spec[1]]))):
+                conds.append(f"{cid}:{'.'.join(map(str, path))}")
+    return ";".join(counts), ";".join(fails), ";".join(conds)
 
 
 def check_structured(r, case, p, res, m):
@@ -387,7 +453,10 @@ def check_program(r, case, p, res, models, idx):
         if swallowed:
             r.hist["checks"]["runs_with_swallowed_error"] += 1
         if sticky_bad:
-            r.oracle_failure(case, f"budget {b}: after an out-of-fuel error inside a nested evaluation (swallowed by a Rust callback) the state reports remaining fuel != 0", "swallowed-oof-tank-not-empty")
+            # the property does not say what the tank holds after a failed charge (an engine that refuses without
+            # emptying it keeps the threshold): the model does (out_of_fuel_is_sticky), so this is a tie matter;
+            # an engine that goes on after a swallowed out-of-fuel shows in the outcome below the threshold
+            r.model_disagreement(case, f"budget {b}: after an out-of-fuel error inside a nested evaluation (swallowed by a Rust callback) the state reports remaining fuel != 0", "out_of_fuel_is_sticky: the tank is empty")
         where = "below" if b < thr else "at-or-above"
         if is_out_of_fuel(tag):
             r.hist["out_of_fuel_error_chain"][tag.split(":")[1]] += 1
@@ -520,6 +589,169 @@ def parse_model(lines):
     return out
 
 
+
+# ---------------------------------------------------------------- edge stream (c13_edges)
+def splice_ok(outer, frame, inner, m):
+    """is `outer` = `frame` with `m` copies of `inner` inserted somewhere?"""
+    import functools, sys
+    n, f, k = len(outer), len(frame), len(inner)
+    if n != f + m * k:
+        return False
+    if k == 0 or m == 0:
+        return outer == frame
+    sys.setrecursionlimit(max(sys.getrecursionlimit(), 4 * n + 100))
+
+    @functools.lru_cache(maxsize=None)
+    def go(i, j, used):
+        if i == n:
+            return j == f and used == m
+        if j < f and outer[i] == frame[j] and go(i + 1, j + 1, used):
+            return True
+        return used < m and outer[i:i + k] == inner and go(i + k, j, used + 1)
+    return go(0, 0, 0)
+
+
+def edge_cost(x):
+    """consumption of one measured render: (from fuel_levels, from the budget scan)"""
+    lv = x["levels"]
+    c = lv[0][2]
+    thr = x["thr"]
+    return c, (None if thr is None else (thr - 1 if thr > 0 else 0))
+
+
+def check_edge_render(r, case, label, which, x, no_state=False):
+    """the property on one render of the edge stream (no hooks needed); no_state: the entry point hands no
+    state back (Expression::eval), the budget scan is all there is"""
+    ok = True
+    cons = set()
+    for (b, tag, c, rem) in x["levels"]:
+        b = int(b)
+        if no_state and tag == "same":
+            continue
+        if tag != "same":
+            r.oracle_failure(case, f"{label}: {which}: budget {b}: {tag[:120]} instead of the unlimited result", f"edges:{which}:above:{tag.split(':')[0]}")
+            ok = False
+        elif c is None:
+            r.oracle_failure(case, f"{label}: {which}: budget {b} configured but the state reports no fuel levels", f"edges:{which}:levels-missing")
+            ok = False
+        else:
+            if c + int(rem) != b:
+                r.oracle_failure(case, f"{label}: {which}: budget {b}: fuel_levels = ({c}, {rem}) do not add up", f"edges:{which}:levels-sum")
+            cons.add(c)
+    if len(cons) > 1:
+        r.oracle_failure(case, f"{label}: {which}: consumed fuel depends on the budget: {sorted(cons)}", f"edges:{which}:consumed-varies")
+        ok = False
+    if x["thr"] is None:
+        r.oracle_failure(case, f"{label}: {which}: no budget up to 2^20 reproduces the unlimited result", f"edges:{which}:no-threshold")
+        return False
+    for (b, tag, c, rem) in x["scan_bad"]:
+        where = "below" if b < x["thr"] else "at-or-above"
+        r.oracle_failure(case, f"{label}: {which}: budget {b} ({where} the threshold {x['thr']}): {tag[:120]}, levels ({c}, {rem})", f"edges:{which}:scan:{where}:{tag.split(':')[0]}")
+        ok = False
+    if ok and len(cons) == 1:
+        c = next(iter(cons))
+        if x["thr"] != (c + 1 if c > 0 else 0):
+            r.oracle_failure(case, f"{label}: {which}: threshold {x['thr']} but {c} consumed", f"edges:{which}:threshold-vs-consumed")
+    return ok and (len(cons) == 1 or no_state)
+
+
+def check_edges(r, label, out):
+    """consumption adds up over every nested-evaluation edge for every callee shape:
+    consumed(edge around callee) - m * consumed(callee alone) is the cost of the edge's own instructions, the same for
+    every callee shape (from fuel_levels and from the budget scan); with hooks: the executed trace of the edge is the
+    edge's own instructions with the callee's trace spliced in m times, and the model (edge_consumption_adds_up) predicts
+    consumption and threshold from the two traces"""
+    rows = []
+    for line in out.splitlines():
+        case, res = line.split("\t")
+        rows.append((case, json.loads(bytes.fromhex(case)), json.loads(res)))
+    groups = collections.defaultdict(list)
+    for case, p, res in rows:
+        name = f"{p['edge']} x {p['shape']}"
+        r.hist["edges_" + label][p["edge"]] += 1
+        if "compile_error" in res:
+            r.broken.append(f"edge program {name} does not compile: {res['compile_error'][:200]}")
+            continue
+        o, i = res["outer"], res["inner"]
+        if o["t"] != "ok" or i["t"] != "ok":
+            r.broken.append(f"edge program {name} fails without fuel: outer {o.get('kind', o['t'])}, callee {i.get('kind', i['t'])}")
+            continue
+        ok_o = check_edge_render(r, case, name, "edge", o)
+        ok_i = check_edge_render(r, case, name, "callee", i, no_state=p["inner"].startswith("expr:"))
+        r.count(case + label, o["levels"][0][2] not in (None, 0), n=2 * 4 + min(o["thr"] or 0, 340) + min(i["thr"] or 0, 340))
+        if ok_o and ok_i:
+            groups[p["edge"]].append((case, p, o, i))
+    model_lines = []
+    for edge, g in sorted(groups.items()):
+        for what, idx in (("consumption (fuel_levels)", 0), ("threshold (budget scan)", 1)):
+            if g[0][1]["kind"] == "syntax":
+                break  # no nested evaluation: the trace-level tie below only
+            if any(edge_cost(i)[idx] is None for case, p, o, i in g):
+                continue
+            ov = {}
+            for case, p, o, i in g:
+                co, ci = edge_cost(o)[idx], edge_cost(i)[idx]
+                ov[case] = (co - p["m"] * ci, co, ci, p)
+            cnt = collections.Counter(v[0] for v in ov.values())
+            ref = [v[0] for v in ov.values() if v[3]["shape"] in ("work3", "expr", "loop")]
+            mode = ref[0] if ref and all(x == ref[0] for x in ref) else cnt.most_common(1)[0][0]
+            r.hist["checks"][f"edge_groups_{label}"] += 1
+            for case, (d, co, ci, p) in ov.items():
+                if d != mode and p["kind"] == "entry":
+                    # two entry points: the property says nothing about how their costs relate; the model does
+                    r.model_disagreement(case, f"{edge} {p['shape']}: {what}: in a template {co}, through the entry point {ci}: difference {d}",
+                                         f"difference {mode} (the Emit) as for the other expressions: every instruction the expression executes is charged")
+                elif d != mode:
+                    r.oracle_failure(case, f"edge {edge} around the callee shape {p['shape']}: {what} of the whole = {co}, of the callee alone = {ci} "
+                                     f"(run {p['m']} time(s)): the edge itself would cost {d}, but it costs {mode} around the other callee shapes: "
+                                     f"the consumption of the nested evaluation is not carried into the render's consumption in full",
+                                     f"edge-does-not-add-up:{edge}:{'levels' if idx == 0 else 'scan'}")
+        if label != "hooks":
+            continue
+        empties = [o["trace"].split() for case, p, o, i in g if not i["trace"].split()]
+        frame = empties[0] if empties else None
+        for n, (case, p, o, i) in enumerate(g):
+            to, ti = o["trace"].split(), i["trace"].split()
+            if frame is None:
+                continue
+            r.hist["checks"]["edge_traces_spliced"] += 1
+            if not splice_ok(tuple(to), tuple(frame), tuple(ti), p["m"]):
+                r.model_disagreement(case, f"edge {edge} x {p['shape']}: executed trace {' '.join(to)[:300]}",
+                                     f"the edge's own instructions ({' '.join(frame)[:200]}) with the callee's trace ({' '.join(ti)[:200]}) spliced in {p['m']} time(s)")
+            model_lines.append((case, p, o, f"E\t{edge}.{n}\t{p['m']}\t{o['thr']},{o['thr'] - 1 if o['thr'] else 0},{2 ** 40}\t{' '.join(frame)}\t{' '.join(ti)}"))
+    if label == "hooks" and model_lines:
+        lines = r.driver("drive_c13", "\n".join(x[3] for x in model_lines) + "\n")
+        if lines is None or len(lines) != len(model_lines):
+            r.broken.append("model driver output does not line up with the edge cases")
+            return
+        for (case, p, o, _), line in zip(model_lines, lines):
+            f = line.split("\t")
+            # E id thr total B:status:consumed:remaining,...
+            if len(f) != 5 or f[0] != "E":
+                r.broken.append("model driver: bad edge line " + line[:100])
+                return
+            c = o["levels"][0][2]
+            if (int(f[2]), int(f[3])) != (o["thr"], c):
+                r.model_disagreement(case, f"edge {p['edge']} x {p['shape']}: thr={o['thr']} consumed={c}", f"edge_consumption_adds_up: thr={f[2]} consumed={f[3]}")
+            runs = f[4].split(",")
+            want = [f"{o['thr']}:ok:{c}:{o['thr'] - c}"] + ([f"{o['thr'] - 1}:OutOfFuel:{o['thr'] - 1}:0"] if o["thr"] else [f"0:ok:0:0"]) + [f"{2 ** 40}:ok:{c}:{2 ** 40 - c}"]
+            if runs != want:
+                r.model_disagreement(case, f"edge {p['edge']} x {p['shape']}: runs {want}", f"model {runs}")
+            r.hist["checks"]["edge_model_lines"] += 1
+
+
+def run_edges(r):
+    for label, no_hooks in (("hooks", False), ("nohooks", True)):
+        exe = r.cargo_build("c13_edges", no_hooks=no_hooks)
+        if exe is None:
+            continue
+        rc, out, err = r.harness(exe, ["gen", r.tier])
+        if rc != 0:
+            r.broken.append(f"harness c13_edges ({label}) exited {rc}: {err[-300:]}")
+            continue
+        check_edges(r, label, out)
+
+
 NSHARDS = 8
 FEATURE_SETS = (["fuel"], ["fuel", "macros"], ["fuel", "multi_template"], ["fuel", "macros", "multi_template"])
 
@@ -573,7 +805,8 @@ def run(r):
               "parameter k inside the nested evaluation; the same matrices with nothing after the nested evaluation; include/import "
               "forms x 7 surroundings x 2 tails; API stream {22 public State methods} x 8 places x 3 positions, retry stream, post-render "
               "and stand-alone-state sequences; structured loop programs over data shapes; big-data programs; plus seeded random "
-              "compositions; per program every budget in [0, thr+8] "
+              "compositions; edge stream {50 nested-evaluation edges + 6 capture constructs} x {28-39 callee shapes} measured with and "
+              "without hooks; per program every budget in [0, thr+8] "
               "and 15 extremes up to 2^64-1; an evaluation = one render (or one sequence of State calls) with a budget; a program is "
               "non-trivial when its threshold > 0; 4 feature-set builds")
     r.assumptions = ["Template borrows the Environment, so a template obtained before set_fuel cannot exist (borrow checker); "
@@ -584,7 +817,7 @@ def run(r):
                      "budgets between thr+8 and 2^31 and between the listed extremes behave like the model (proved for the model for every budget)",
                      "programs that panic or differ between two unlimited renders are outside the property (none generated)"]
     status = r.regen_tables(["C13_FUEL_COSTS", "C13_FUEL_USES", "C13_TRACK_SITE", "C13_FUEL_READERS", "C13_ENTRY_CALLS", "C13_ERR_CONSUMERS",
-                    "C13_INSTR_VARIANTS", "C13_FUEL_ARMS", "C13_TRACKER_SITES", "C13_NESTED_FNS"])
+                    "C13_INSTR_VARIANTS", "C13_FUEL_ARMS", "C13_TRACKER_SITES", "C13_NESTED_FNS", "C13_OUTPUT_SITES"])
     r.lean_prove("MJ.Props.C13", "MJ/Audit/C13.lean", extra_targets=["drive_c13"])
     check_feature_matrix(r)
     exe = r.cargo_build("c13")
@@ -604,6 +837,7 @@ def run(r):
             r.sample({"id": p["id"], "templates": p["templates"], "thr": res["thr"], "unlimited": res["unl"],
                       "runs_first": res["runs"][:3], "runs_last": res["runs"][-2:]})
     check_groups(r, progs)
+    run_edges(r)
     # the instruction names the hook reports are variants of the Instruction enum as extracted
     variants = {row[0] for row in (status["items"].get("C13_INSTR_VARIANTS") or [])}
     seen = {name for _, _, res in progs for name in res.get("trace", "").split()}
@@ -612,6 +846,8 @@ def run(r):
     r.extra["instruction_variants_executed"] = f"{len(seen & variants)} of {len(variants)}"
     r.extra["instruction_variants_never_executed"] = sorted(variants - seen)
     r.extra["programs"] = len(progs)
+    # every distinct failure signature with its count (the VIOLATION lines show the first five only)
+    r.extra["oracle_failure_sites"] = dict(collections.Counter(f["site"] for f in r.oracle_failures).most_common(80))
     r.extra["programs_with_threshold"] = sum(1 for _, _, res in progs if res.get("thr") is not None)
 
 
@@ -627,6 +863,23 @@ def replay(r, path):
             rc, out, err = common.sh(["cargo", "check", "--offline", "-q", "-p", "minijinja", "--no-default-features", "--features", case[9:]],
                                      cwd=common.REPO, env=dict(common.ENV, CARGO_TARGET_DIR=os.path.join(common.BUILD, "cargo-c13cfg")))
             print("rc =", rc, err[-600:])
+            continue
+        try:
+            is_edge = json.loads(bytes.fromhex(case)).get("stream") == "edges"
+        except ValueError:
+            is_edge = False
+        if is_edge:
+            p = json.loads(bytes.fromhex(case))
+            print(f"edge {p['edge']} x callee shape {p['shape']} (run {p['m']} time(s)); templates:", json.dumps(p["templates"]))
+            for label, no_hooks in (("hooks", False), ("nohooks", True)):
+                exe_e = r.cargo_build("c13_edges", no_hooks=no_hooks)
+                rc, out, err = r.harness(exe_e, ["one", case])
+                res = json.loads(out.split("\t")[1])
+                for which in ("outer", "inner"):
+                    x = res.get(which, {})
+                    print(f"  [{label}] {'edge  ' if which == 'outer' else 'callee'} render of {p[which]!r}: consumed {x.get('levels', [[0, 0, None]])[0][2]}, threshold {x.get('thr')}, "
+                          f"scan failures {x.get('scan_bad')}, trace: {x.get('trace')}")
+            print("  (the same edge around the other callee shapes: ./check C13 lists the overhead per shape in the VIOLATION text)")
             continue
         rc, out, err = r.harness(exe, ["one", case])
         progs = parse(out)
